@@ -82,7 +82,7 @@ func mapRanges(fn *ssa.Function) []mapRange {
 
 func ruleC13Maps(c *Checker) {
 	const R = "C13.maps"
-	c.rule(R, "Every range over a map in sourcebundle/sourceaddrs is order-insensitive: (E1) the body only updates maps; (E2) it appends to a slice that is sorted on every path before it escapes; (E3) it only returns errors; (E5) it selects an element by comparisons that include a string-order tie-break. Anything else lets map iteration order leak into results.", 5)
+	c.rule(R, "Every range over a map in sourcebundle/sourceaddrs is order-insensitive: (E1) the body only updates maps; (E2) it appends to a slice that is sorted on every path before it escapes; (E3) it only returns errors; (E5) it selects an element by a relation 'candidate replaces kept' that is a strict total order on the keys — the relation is extracted from the loop body as a table over the orderings of the key functions compared, and checked for totality, antisymmetry and transitivity on all three-element models. Anything else lets map iteration order leak into results.", 5)
 	p := c.P
 	n := 0
 	for _, fn := range p.Funcs {
@@ -202,7 +202,11 @@ func classifyMapRange(p *Prog, mr mapRange) (string, string) {
 	if nonSliceAcc > 0 || outerStores > 0 {
 		// E5: selection with a string tie-break
 		if hasStringOrderCompare(mr) {
-			return "E5", "selection by comparisons including a string-order tie-break (the choice does not depend on iteration order)"
+			ok, why := selectionIsTotalOrder(p, mr)
+			if ok {
+				return "E5", why
+			}
+			return "E4", "an element is selected across iterations, but not by a total order: " + why
 		}
 		if outerStores > 0 && nonSliceAcc == 0 && onlyMapKeyedStores(mr) {
 			return "E1", "only writes keyed by the loop key"
